@@ -13,7 +13,11 @@ Inductive c12op :=
 | XRestart (o_files : list N) (o_cur : option snapobs)
 | XLoseRemoves (b : bool)    (* fault injection: from now on the Remove calls of this process do not reach storage *)
 | XRestartFrom (id : N) (o_files : list N) (o_cur : option snapobs)   (* new Store with the SavepointURI of savepoint id *)
-| XAbort.
+| XAbort
+| XFailNextWrite             (* fault injection: the next Write of a snapshot file returns an error *)
+(* the ack completed the checkpoint but the write of its snapshot file failed (error on the error channel) *)
+| XAckOpF (cid op pl : N) (o_err : bool) (o_removed o_notes : list (list N)) (o_cur : option N)
+| XAckSrF (cid sr : N) (sts : list N) (o_err : bool) (o_removed o_notes : list (list N)) (o_cur : option N).
 
 Inductive c13step :=
 | YPub (n : N) (sp : bool) (o_id : N)                 (* checkpoint (savepoint if sp) with n split states *)
@@ -22,7 +26,8 @@ Inductive c13step :=
 | YR (i : N) (o_ids : option (list N))
 | YT (o_note : option (list N))
 | YCrash (o_files : list N) (o_loaded : option N) (o_ltag : N)
-| YRewind (sp : N) (o_files : list N) (o_loaded : option N) (o_ltag : N).   (* new Store started from savepoint sp *)
+| YRewind (sp : N) (o_files : list N) (o_loaded : option N) (o_ltag : N)    (* new Store started from savepoint sp *)
+| YWF (i : N) (o_id : option N) (o_cur : N).   (* the i-th parked Write returns an error; o_cur: CurrentCheckpoint().Id afterwards *)
 
 Inductive case :=
 | C12 (ops : list c12op)
@@ -69,6 +74,9 @@ Definition action_of (o : c12op) : action :=
   | XLoseRemoves b => ALoseRemoves b
   | XRestartFrom id _ _ => ARestartFrom id
   | XAbort => AAbort
+  | XFailNextWrite => AFailNextWrite
+  | XAckOpF cid op pl _ _ _ _ => AAckOp cid op pl
+  | XAckSrF cid sr sts _ _ _ _ => AAckSr cid sr sts
   end.
 Definition result_of (o : c12op) : result :=
   match o with
@@ -80,6 +88,9 @@ Definition result_of (o : c12op) : result :=
   | XLoseRemoves _ => RFault
   | XRestartFrom _ f c => RRestart f c
   | XAbort => RFault
+  | XFailNextWrite => RFault
+  | XAckOpF _ _ _ e rm nt c => RAckFailed e rm nt c
+  | XAckSrF _ _ _ e rm nt c => RAckFailed e rm nt c
   end.
 
 Definition cmp_result (model obs : result) : list N :=
@@ -99,6 +110,11 @@ Definition cmp_result (model obs : result) : list N :=
   | RRestart f1 c1, RRestart f2 c2 =>
       if set_eqb f1 f2 && opt_eqb snap_same c1 c2 then [] else [6]
   | RFault, RFault => []
+  | RAckFailed e1 r1 n1 c1, RAckFailed e2 r2 n2 c2 =>
+      (if Bool.eqb e1 e2 then [] else [3]) ++
+      (if list_eqb set_eqb r1 r2 && nll_eqb n1 n2 && optN_eqb c1 c2 then [] else [5])
+  | RAck _ _, RAckFailed _ _ _ _ => [4]
+  | RAckFailed _ _ _ _, RAck _ _ => [4]
   | _, _ => [9]
   end.
 
@@ -131,12 +147,14 @@ Definition hstep_of (y : c13step) : hstep :=
   match y with
   | YPub _ _ _ => HPub | YW i _ _ _ => HW i | YR i _ => HR i | YT _ => HT | YCrash _ _ _ => HCrash
   | YRewind sp _ _ _ => HRewind sp
+  | YWF i _ _ => HWFail i
   end.
 
 Definition cmp_hobs (model : hobs) (obs : c13step) : list N :=
   match model, obs with
   | OPub a, YPub _ _ b => if a =? b then [] else [21]
   | OW a, YW _ b _ _ => if optN_eqb a b then [] else [22]
+  | OW a, YWF _ b _ => if optN_eqb a b then [] else [22]
   | OR a, YR _ b => if opt_eqb set_eqb a b then [] else [23]
   | OT a, YT b => if opt_eqb listN_eqb a b then [] else [24]
   | OCrash l a, YCrash f b _ => (if listN_eqb l f then [] else [25]) ++ (if optN_eqb a b then [] else [26])
@@ -158,6 +176,7 @@ Fixpoint cmp_cur (q : pquirks) (s : pstate) (steps : list c13step) : list N :=
       let s' := fst (hexec1 q s (hstep_of y)) in
       (match y with
        | YW _ (Some _) _ c => if c =? match completed s' with x :: _ => x | [] => 0 end then [] else [28]
+       | YWF _ (Some _) c => if c =? match completed s' with x :: _ => x | [] => 0 end then [] else [28]
        | _ => []
        end) ++ cmp_cur q s' r
   end.
@@ -193,6 +212,9 @@ Fixpoint spec_sched (z : sst) (steps : list c13step) : list N :=
       (if cur <? z_cur z then [112] else []) ++
       spec_sched (MkSst (id :: z_tl z) (id :: z_wr z) (z_notes z) (z_pubs z) (write_file id n (z_cont z))
                         (if sp then write_file id n (z_spc z) else z_spc z) cur) r
+  | YWF _ (Some _) cur :: r =>
+      (* a failed write leaves everything as it was: in particular the current checkpoint *)
+      (if cur =? z_cur z then [] else [113]) ++ spec_sched z r
   | YR _ (Some ids) :: r =>
       (if negb (is_nil (z_tl z)) && mem (list_max (z_tl z)) ids then [102] else []) ++ spec_sched z r
   | YT (Some note) :: r =>
